@@ -3,6 +3,7 @@ package metadata
 import (
 	"bytes"
 	_ "embed"
+	"errors"
 	"fmt"
 	"io"
 
@@ -82,11 +83,22 @@ func (dtm *GraphsyncFilecoinV1) ReadFrom(r io.Reader) (n int64, err error) {
 
 	nb := graphSyncFilecoinV1Prototype.NewBuilder()
 	// Other protocols may follow in the same reader; stop at the end of the CBOR object.
-	err = dagcbor.DecodeOptions{AllowLinks: true, DontParseBeyondEnd: true}.Decode(nb, cr)
+	var raw bytes.Buffer
+	err = dagcbor.DecodeOptions{AllowLinks: true, DontParseBeyondEnd: true}.Decode(nb, io.TeeReader(cr, &raw))
 	if err != nil {
 		return cr.readCount, err
 	}
 	nd := nb.Build()
+	// The decoder tolerates DAG-CBOR that is not in canonical form (key order, length
+	// encodings, repeated keys). Accept only what MarshalBinary writes, so that decoded
+	// metadata re-encodes to the bytes it was decoded from.
+	var canonical bytes.Buffer
+	if err = dagcbor.Encode(nd, &canonical); err != nil {
+		return cr.readCount, err
+	}
+	if !bytes.Equal(raw.Bytes(), canonical.Bytes()) {
+		return cr.readCount, errors.New("graphsync filecoin metadata is not canonical DAG-CBOR")
+	}
 	gm := bindnode.Unwrap(nd).(*GraphsyncFilecoinV1)
 	dtm.VerifiedDeal = gm.VerifiedDeal
 	dtm.FastRetrieval = gm.FastRetrieval
